@@ -233,9 +233,11 @@ func run(c *core.Ctx) error {
 	for _, k := range tkeys {
 		targets = append(targets, targetSet[k])
 	}
-	nSeq, lenSeq, nStress, G, perG := 24, 8, 10, 4, 3
+	nSeq, lenSeq, nStress, G, perG := 24, 8, 8, 4, 3
+	nContend, nContendTLC := 1500, 4
 	if !c.Quick() {
 		nSeq, lenSeq, nStress, G, perG = 200, 10, 80, 4, 4
+		nContend, nContendTLC = 5000, 24
 	}
 	var hs []*history
 	for i := 0; i < nSeq; i++ {
@@ -245,14 +247,29 @@ func run(c *core.Ctx) error {
 		_ = w
 	}
 	for i := 0; i < nStress; i++ {
-		h, w := stressHistory(c, targets, c.Seed*7000003+int64(i), G, perG, tvSeen)
+		h, w := stressHistory(c, targets, c.Seed*7000003+int64(i), G, perG, false, tvSeen)
 		hs = append(hs, h)
 		c.Eval(fmt.Sprintf("stress|%d|%d", c.Seed, i), true)
 		_ = w
 	}
-	c.Logf("recorded %d sequential and %d concurrent histories from the real context (%d violations so far)", nSeq, nStress, c.Violations())
+	// Contention rounds: all goroutines create the same types at the same
+	// moment (barrier before every call).  The first few are also validated
+	// by TLC, all of them by the property oracles.
+	for i := 0; i < nContend; i++ {
+		g := 8
+		if i < nContendTLC {
+			g = G
+		}
+		h, _ := stressHistory(c, targets, c.Seed*9000011+int64(i), g, perG, true, tvSeen)
+		if i < nContendTLC {
+			hs = append(hs, h)
+		}
+		c.Eval(fmt.Sprintf("contend|%d|%d", c.Seed, i), true)
+	}
+	c.Set("contention_rounds", nContend)
+	c.Logf("recorded %d sequential, %d concurrent and %d contention histories from the real context (%d violations so far)", nSeq, nStress, nContend, c.Violations())
 	// validate in chunks in parallel (each TLC run is single-threaded)
-	chunks := 4
+	chunks := 2
 	if !c.Quick() {
 		chunks = 8
 	}
